@@ -187,6 +187,8 @@ class CallsDriver:
             tgt = self.plan.get(c, 10 ** 6 + c)
             self.target[c] = tgt
             kw['timeout'] = tgt - self.clock.seconds()
+        elif c % 2 == 0:
+            kw['timeout'] = 0            # "no deadline", spelled as a number by some callers
         if k['ret'] != 'nocheck':
             kw['returnSignature'] = k['ret']
         if k['nr']:
